@@ -40,7 +40,7 @@ func isMutexCall(in ssa.Instruction, names ...string) (ssa.Value, string, bool) 
 }
 
 func runC18(c *core.Ctx) {
-	c.Explanation = "Lock discipline decided on SSA: (lock.extent) in (*Interpreter).ServeHTTP the call i.lock.Lock() dominates every access to a field of *Interpreter other than Debugger/lock, every call of an *Interpreter method and every closure capturing i; Unlock occurs only as a defer dominated by the Lock (held until return); (lock.entry) every function of handler shape func(ResponseWriter,*Request) in the module reaches the interpreter only through ServeHTTP; (go.shared) for every `go` statement of linter/interpreter/tester/ast that can have several live instances (it sits in a loop), every store, map update or append-store in the functions reachable from the goroutine (static call graph inside the module, arguments tracked: receiver/parameters that derive from captured variables, parameters or globals are shared) is dominated by a sync.Mutex Lock in its function or on the call chain. Necessary for race-freedom of requests and of plugin diagnostics; does not decide equality of responses with a serial order."
+	c.Explanation = "Lock discipline decided on SSA: (lock.extent) in (*Interpreter).ServeHTTP the call i.lock.Lock() dominates every access to a field of *Interpreter other than Debugger/lock, every call of an *Interpreter method and every closure capturing i; Unlock occurs only as a defer dominated by the Lock (held until return); (lock.entry) every function of handler shape func(ResponseWriter,*Request) in the module reaches the interpreter only through ServeHTTP; (go.shared) for every `go` statement of linter/interpreter/tester/ast that can have several live instances (it sits in a loop), every store, map update or append-store in the functions reachable from the goroutine (static call graph inside the module, arguments tracked: receiver/parameters that derive from captured variables, parameters or globals are shared) is dominated by a sync.Mutex Lock in its function or on the call chain. Necessary for race-freedom of requests and of plugin diagnostics; does not decide equality of responses with a serial order. (lock.release) every Lock/RLock in the module is released on every path to a return of its function."
 	c.NotCovered = []string{"serialisability of responses as values", "races inside third-party packages and the standard library", "goroutines of dap/debugger/snippet/remote/cmd (reported as information in thorough tier)"}
 	c.Assumptions = []string{"functions outside the falco module do not write falco's shared state", "values returned by calls are fresh unless they are loaded from shared memory"}
 	prog := c.Prog
